@@ -38,8 +38,14 @@ def main():
                   "source_commits": [], "add_only": True},
         "engines": [
             {"name": "vf.sysprop", "path": "vf/sysprop.py", "serves_properties": [c["property_id"] for c in checks],
-             "kind_free_text": "Hypothesis @given over NetSpec configurations; MonSimulation runs invariant monitors after every event; post-run audits"},
-            {"name": "vf.unit", "path": "vf/unit.py", "serves_properties": [], "kind_free_text": "Hypothesis / exhaustive enumeration over pure functions"},
+             "kind_free_text": "Hypothesis @given over NetSpec configurations (vf/strategies.py -> vf/build.py); MonSimulation (vf/observe.py) runs invariant monitors (vf/monitors/) after every event; post-run audits"},
+            {"name": "vf.runner", "path": "vf/runner.py", "serves_properties": [c["property_id"] for c in checks],
+             "kind_free_text": "16-process sharding, collect-then-bucket, known-finding matching, spec-level reducer, replay files, evidence"},
+            {"name": "vf.props unit / exhaustive / stateful sub-checks", "path": "vf/props/", "serves_properties": ["C08", "C09", "C12", "C15", "C17", "C18"],
+             "kind_free_text": "Hypothesis @given over pure functions, itertools enumeration of finite sub-domains, RuleBasedStateMachine histories (C15)"},
+            {"name": "vf.refdes", "path": "vf/refdes.py", "serves_properties": ["C07"], "kind_free_text": "independent reference simulator (differential oracle)"},
+            {"name": "vf.fuzz", "path": "vf/fuzz/", "serves_properties": ["C01", "C02", "C14"],
+             "kind_free_text": "atheris / libFuzzer over Hypothesis fuzz_one_input with the semantic monitors inside the target; committed corpus"},
         ],
         "checks": checks,
         "not_applicable": na,
